@@ -97,11 +97,23 @@ def _alarm(signum, frame):
     raise TimeoutError()
 
 
+def _keep(viols, percls, new):
+    """at most 3 witnesses per violation class and worker (a frequent class must not crowd out a rare one)"""
+    import json as _json
+    for x in new:
+        j = x.to_json() if hasattr(x, 'to_json') else x
+        k = j['sub'] + '|' + _json.dumps(j['sig'], sort_keys=True, default=repr)
+        percls[k] = percls.get(k, 0) + 1
+        if percls[k] <= 3:
+            viols.append(j)
+
+
 def _work(args):
     wid, nw = args
     fn, c = _GCTX
     cnt = collections.Counter()
     viols = []
+    percls = {}
     signal.signal(signal.SIGALRM, _alarm)
     for gi, sub in enumerate(iter_graphs(c)):
         if gi % nw != wid:
@@ -122,8 +134,7 @@ def _work(args):
             signal.setitimer(signal.ITIMER_REAL, 0)
         cnt.update(k)
         cnt['graphs'] += 1
-        if len(viols) < 60:
-            viols += [x.to_json() if hasattr(x, 'to_json') else x for x in v]
+        _keep(viols, percls, v)
     return cnt, viols
 
 
@@ -154,6 +165,7 @@ def _iwork(args):
     fn, n, data = _ICTX
     cnt = collections.Counter()
     viols = []
+    percls = {}
     signal.signal(signal.SIGALRM, _alarm)
     for i in range(wid, n, nw):
         signal.setitimer(signal.ITIMER_REAL, 120)
@@ -171,8 +183,7 @@ def _iwork(args):
             signal.setitimer(signal.ITIMER_REAL, 0)
         cnt.update(k)
         cnt['inputs'] += 1
-        if len(viols) < 60:
-            viols += [x.to_json() if hasattr(x, 'to_json') else x for x in v]
+        _keep(viols, percls, v)
     return cnt, viols
 
 
